@@ -37,3 +37,118 @@ Example C05_nonvacuous :
   dr_err (drive 100 [3] (new_reader (bytewise (wire fs) TEOF) 2 false false 0 false CbReadAll))
     = RProtocol ContinuationExpected.
 Proof. vm_compute. repeat split; reflexivity. Qed.
+
+(* ------------------------------------------------------------------ the stream-level statement, spelled out *)
+Require Import ReaderAux ReaderStream ReaderStreamC05.
+
+(* THE STREAM.  [pre ++ f :: post]: any frames [pre], the offending frame [f], anything
+   [post] after it; every frame only has to be well-formed as an object ([wf_sframe]:
+   field ranges, 4-byte key).  [s] is ANY transport chunking of its wire bytes, [bufs] any
+   caller buffer sizes.  The reader's configuration [c] (side and extension bits, UTF-8
+   checking, size limit, compression extension) is arbitrary.
+   [pre] IS ACCEPTED: the frame-sequence spec run on [pre] alone ends without a violation,
+   either between two messages ([open = false], outcome OClean) or with a data message
+   still being assembled ([open = true], outcome OCutMidMessage).
+   [f] IS REFUSED in that position — position = the ws.State the reader holds when it is
+   asked for this frame: its configured bits plus "fragmented" iff a message is open —
+     - [broken (sf_header f) st <> []]: some rule of the independent rule set of C03 is
+       broken (reserved bits without an extension, a reserved opcode, a fragmented or
+       over-125-byte control frame, a continuation with no message open, a new data frame
+       while one is open, wrong masking for the side), or
+     - [too_large c f]: it announces more than the configured maximum.
+   THEN the NextFrame / read-to-EOF loop over wsutil.Reader ends with
+     - the protocol error naming EXACTLY the rule ws.CheckHeader reports for this header
+       in this state — one of the broken rules — resp., when only the size rule is
+       broken, the size error (a header violation takes precedence, as in the code);
+     - events (completed messages and control frames, in stream order) exactly those of
+       [pre]; the bytes handed out for the unfinished message exactly the fragments of the
+       message open at the end of [pre];
+     - hence: every data byte delivered (completed messages, then the unfinished one) is a
+       data byte of [pre] — all of them, in order, and nothing else: not one payload byte
+       of [f] or of [post] is delivered as message data — and the control frames
+       delivered are exactly the control frames of [pre]. *)
+Theorem C05_stream_violation : forall c pre f post s bufs fuel (open : bool),
+  wf_cfg c -> Forall wf_sframe (pre ++ f :: post) -> wf_src s -> tl s = TEOF ->
+  flat s = wire (pre ++ f :: post) ->
+  (2 * length (wire (pre ++ f :: post)) + 4 * length (pre ++ f :: post) + 8 <= fuel)%nat ->
+  sr_out (spec_run c 0 None [] pre) = (if open then OCutMidMessage else OClean) ->
+  (broken (sf_header f) (set_fragmented (c_state c) open) <> [] \/ too_large c f = true) ->
+  let sp := spec_run c 0 None [] pre in
+  let d := drive fuel bufs (new_reader s (c_state c) false (c_check_utf8 c) (c_max c) (c_ext c) CbReadAll) in
+  match check_header (sf_header f) (set_fragmented (c_state c) open) with
+  | Some rl => dr_err d = RProtocol rl /\ In rl (broken (sf_header f) (set_fragmented (c_state c) open))
+  | None => dr_err d = RTooLarge
+  end /\
+  evs_match (sr_events sp) (dr_events d) = true /\
+  dr_partial d = sr_partial sp /\
+  data_bytes_of_events (dr_events d) ++ dr_partial d = data_bytes_of_frames pre /\
+  ctl_of_events (dr_events d) = ctl_of_frames pre.
+Proof. exact stream_violation. Qed.
+Print Assumptions C05_stream_violation.
+
+(* the same through helper.go:ReadMessage called repeatedly ([read_messages], see
+   C04_read_message_meets_spec: CheckUTF8, no size limit, no extension): the call that
+   meets [f] returns the protocol error naming exactly CheckHeader's rule; the
+   concatenated results are exactly the events of [pre]; ReadMessage drops the fragments
+   of the message open at the end of [pre] together with the error, so the data bytes
+   returned are the data bytes of [pre] short of exactly those fragments — again nothing
+   of [f] or [post] *)
+Theorem C05_read_message_violation : forall state pre f post s bufs fuel (open : bool),
+  wf_cfg (mkCfg state true 0 false) -> Forall wf_sframe (pre ++ f :: post) -> wf_src s -> tl s = TEOF ->
+  flat s = wire (pre ++ f :: post) ->
+  (length (wire (pre ++ f :: post)) + 2 <= fuel)%nat ->
+  sr_out (spec_run (mkCfg state true 0 false) 0 None [] pre) = (if open then OCutMidMessage else OClean) ->
+  broken (sf_header f) (set_fragmented state open) <> [] ->
+  let sp := spec_run (mkCfg state true 0 false) 0 None [] pre in
+  let '(evs, e) := read_messages fuel bufs s state [] in
+  (exists rl, check_header (sf_header f) (set_fragmented state open) = Some rl /\ e = RProtocol rl /\
+              In rl (broken (sf_header f) (set_fragmented state open))) /\
+  evs_match (sr_events sp) evs = true /\
+  data_bytes_of_events evs ++ sr_partial sp = data_bytes_of_frames pre /\
+  ctl_of_events evs = ctl_of_frames pre.
+Proof. exact read_message_violation. Qed.
+Print Assumptions C05_read_message_violation.
+
+(* a server (frames must be masked), transport chunks of 3,1,7,2,... bytes, caller
+   buffers 2,5,1: a text message and a ping are delivered, a binary message is begun, a
+   pong arrives inside it, then frame 5 starts a NEW text message while the binary one is
+   open. Hypotheses hold; the error names the rule; "x" (120) and the 9 after it never
+   show up. Second stream: the limit is 4 bytes and frame 2 announces 5. *)
+Example C05_stream_nonvacuous :
+  let k1 := [17; 34; 51; 68] in let k2 := [255; 0; 128; 7] in
+  let pre := [mkSF true 0 1 (Some k1) [104; 105]; mkSF true 0 9 (Some k2) [1; 2; 3];
+              mkSF false 0 2 (Some k2) [7; 8]; mkSF true 0 10 (Some k1) [4]] in
+  let f := mkSF true 0 1 (Some k1) [120] in
+  let post := [mkSF true 0 0 (Some k2) [9]] in
+  let c := mkCfg 1 true 0 false in
+  let fs := pre ++ f :: post in
+  let s := mkSrc (chunk_by [3; 1; 7; 2] (wire fs)) TEOF in
+  let fuel := (2 * length (wire fs) + 4 * length fs + 8)%nat in
+  let d := drive fuel [2; 5; 1] (new_reader s 1 false true 0 false CbReadAll) in
+  (wf_cfg c /\ Forall wf_sframe fs /\ wf_src s /\ tl s = TEOF /\ flat s = wire fs) /\
+  sr_out (spec_run c 0 None [] pre) = OCutMidMessage /\
+  broken (sf_header f) (set_fragmented 1 true) = [ContinuationExpected] /\
+  dr_err d = RProtocol ContinuationExpected /\
+  dr_events d = [mkEv 1 [104; 105] false false; mkEv 9 [1; 2; 3] false false; mkEv 10 [4] true false] /\
+  dr_partial d = [7; 8] /\
+  data_bytes_of_events (dr_events d) ++ dr_partial d = [104; 105; 7; 8] /\
+  data_bytes_of_frames pre = [104; 105; 7; 8] /\
+  ctl_of_events (dr_events d) = [(9, [1; 2; 3]); (10, [4])] /\
+  read_messages (length (wire fs) + 2) [2; 5; 1] s 1 [] =
+    ([mkEv 1 [104; 105] false false; mkEv 9 [1; 2; 3] false false; mkEv 10 [4] true false],
+     RProtocol ContinuationExpected) /\
+  (let pre2 := [mkSF true 0 1 (Some k1) [104; 105]] in
+   let f2 := mkSF true 0 2 (Some k1) [1; 2; 3; 4; 5] in
+   let c2 := mkCfg 1 true 4 false in
+   let s2 := mkSrc (chunk_by [3; 1; 7; 2] (wire (pre2 ++ f2 :: post))) TEOF in
+   let d2 := drive 100 [2; 5; 1] (new_reader s2 1 false true 4 false CbReadAll) in
+   sr_out (spec_run c2 0 None [] pre2) = OClean /\ broken (sf_header f2) (set_fragmented 1 false) = [] /\
+   too_large c2 f2 = true /\ dr_err d2 = RTooLarge /\ dr_events d2 = [mkEv 1 [104; 105] false false] /\
+   dr_partial d2 = []).
+Proof.
+  cbv zeta. split.
+  - split; [reflexivity|]. split.
+    { repeat constructor; try reflexivity; try (intro H; discriminate H). }
+    split; [vm_compute; repeat constructor; discriminate|]. split; vm_compute; reflexivity.
+  - vm_compute. repeat split; reflexivity.
+Qed.
